@@ -3,7 +3,7 @@
    real code before the repairs (known_findings.json, "fixed"). Also: the premises of the safety
    theorems are satisfiable (a concrete history with crashes meets hist_ok). *)
 From LB Require Import Base.Prelude Log.Model Log.Retention Log.Compact Codec.Message Log.Proofs Log.Disk Log.DiskBase Log.DiskProofs
-  Log.DiskBlocks Log.DiskTrunc Log.DiskClean Log.DiskCleanOp Log.DiskSafety Log.DiskTear Log.DiskTorn.
+  Log.DiskBlocks Log.DiskTrunc Log.DiskClean Log.DiskCleanOp Log.DiskSafety Log.DiskTear Log.DiskTorn Log.DiskRecover Log.DiskRecoverProofs.
 Open Scope Z_scope.
 
 Definition P1000 : params := mkP 1000 (mkLimits 0 0 0) false.
@@ -106,4 +106,21 @@ Lemma torn_no_rebuild_stuck :
                end
   | None => None
   end = None.
+Proof. vm_compute. reflexivity. Qed.
+
+(* ---- crashes inside commitlog.New (Log.DiskRecover) ---- *)
+(* the second append dies after its log write (the index lacks two entries); the recovery that follows
+   dies after removing the stale index, the next one after re-creating it and writing one entry, the
+   third runs to the end: offsets 0, 1, 2, with an index that covers them (the next append gets 3) *)
+Lemma recovery_crashes_fine :
+  match init key_of fixed P1000 with
+  | Some s0 => match exec key_of fixed P1000 s0 (DAppend [msg1 1]) with
+               | Some s1 => (length (recover_effs (run_effs (s_disk s1) (firstn 3 (match script key_of fixed P1000 s1 (DAppend [msg1 1; msg1 2]) with Some es => es | None => [] end)))),
+                             offsets_of (crash_rec key_of P1000 s1 (DAppend [msg1 1; msg1 2]) 3 [1; 5]%nat),
+                             offsets_of (match crash_rec key_of P1000 s1 (DAppend [msg1 1; msg1 2]) 3 [1; 5]%nat with
+                                         | Some s2 => exec key_of fixed P1000 s2 (DAppend [msg1 2]) | None => None end))
+               | None => (O, [], [])
+               end
+  | None => (O, [], [])
+  end = (11%nat, [0; 1; 2], [0; 1; 2; 3]).
 Proof. vm_compute. reflexivity. Qed.
